@@ -33,6 +33,9 @@ def window_cfgs(results, nested=False):
         ws = [(r64(0.3 * e0), r64(0.8 * e0)), (0.0, r64(0.5 * e0))]
         if nested:
             ws = [(0.0, r64(e0 + 0.05)), (r64(0.2 * e0), r64(0.9 * e0)), (r64(0.4 * e0), r64(0.7 * e0)), (r64(0.5 * e0), r64(0.6 * e0))]
+        # an upper bound beyond every Q-value (the documented default is 4.3 MeV, users may give more): the effective window
+        # ends at the available energy; the spectrum tables hold 4300 bins
+        ws.append((r64(0.3 * e0), 12.0))
         for (a, b) in ws:
             if b - a >= 1.0 / 64:
                 out.append('dbd %s %d %d %.10g %.10g' % (c['name'], c['level'], c['mode'], a, b))
